@@ -7,6 +7,10 @@ set -u
 LANES=${LANES:-3}
 out=/verif/seeded/MATRIX.txt
 seeds=(/verif/seeded/C*/)
+# ONLY=<regex> restricts the run to matching seed ids and merges into the existing MATRIX.txt
+if [ -n "${ONLY:-}" ]; then
+  sel=(); for d in "${seeds[@]}"; do [[ $(basename $d) =~ $ONLY ]] && sel+=("$d"); done; seeds=("${sel[@]}")
+fi
 lane() {
   local l=$1 R=/tmp/seedmx-repo-$1 V=/tmp/seedmx-verif-$1 part=/tmp/seedmx-part-$1.txt log=/tmp/seedmx-$1.log
   git -C /repo worktree remove --force $R >/dev/null 2>&1; git -C /verif worktree remove --force $V >/dev/null 2>&1
@@ -36,6 +40,10 @@ lane() {
 ALL="${1:-}"
 for l in $(seq 0 $((LANES-1))); do lane $l & done
 wait
-{ echo "# seeded change x check (quick tier) at /verif $(git -C /verif rev-parse --short HEAD), /repo $(git -C /repo rev-parse --short HEAD)"; cat /tmp/seedmx-part-*.txt | sort; } > $out
+if [ -n "${ONLY:-}" ] && [ -f $out ]; then
+  { grep '^#' $out; echo "# rows matching $ONLY re-run at /verif $(git -C /verif rev-parse --short HEAD), /repo $(git -C /repo rev-parse --short HEAD)"; { grep -v '^#' $out | grep -Ev "^($ONLY) " ; cat /tmp/seedmx-part-*.txt; } | sort; } > $out.new; mv $out.new $out
+else
+  { echo "# seeded change x check (quick tier) at /verif $(git -C /verif rev-parse --short HEAD), /repo $(git -C /repo rev-parse --short HEAD)"; cat /tmp/seedmx-part-*.txt | sort; } > $out
+fi
 rm -f /tmp/seedmx-part-*.txt
 grep -c DETECTED $out
